@@ -313,7 +313,10 @@ func (a *Authority) authorizeRenew(ctx context.Context, cert *x509.Certificate) 
 		a.adminMutex.RLock()
 		p, ok = a.provisioners.LoadByCertificate(cert)
 		a.adminMutex.RUnlock()
-		if !ok {
+		// The noop provisioner is only meant for certificates that don't
+		// record a provisioner at all. If the database does name the
+		// provisioner of this certificate, that provisioner is gone.
+		if !ok || a.certificateRecordsProvisioner(cert) {
 			return nil, errs.Unauthorized("authority.authorizeRenew: provisioner not found", opts...)
 		}
 	}
